@@ -56,6 +56,9 @@ def _summaries():
     return S
 
 
+from . import polarity  # noqa: E402
+
+
 def run(res, programs, tier):
     fdt_tables.r03_1(res, programs, "R10.1a")
     res.rule("R10.1", "Round::round_fract / round_ratio (trait defaults), instantiated with each of the six modes, return the adjustment prescribed by the definition for every sign / half / zero case of the fraction")
@@ -69,6 +72,8 @@ def run(res, programs, tier):
             _r10_2b(res, P, P.name)
         if "dashu_ratio" in P.units:
             _r10_3(res, P, P.name)
+        if "dashu_float" in P.units and "dashu_ratio" in P.units and P.role == "main":
+            polarity.rule(res, P, P.name, "R10.4")
 
 
 def _dispatch_for(P, mode):
